@@ -838,6 +838,52 @@ Proof.
   - rewrite L3. apply Ha.
 Qed.
 
+(* the handles in the linearisation history are well-formed for the
+   sequential machine (index below the counter, positive generation) *)
+
+Lemma awf_run_snoc os : forall a o,
+  awf_run a (os ++ [o]) = awf_run a os && aop_wfb (fst (arun true a os)) o.
+Proof.
+  induction os as [|o' os IH]; intros a o; cbn [app awf_run].
+  - cbn [arun fst]. rewrite andb_true_r. reflexivity.
+  - rewrite IH, arun_cons. cbn [fst]. rewrite andb_assoc. reflexivity.
+Qed.
+
+Lemma tstep_wf a q t a' q' t' o : G a -> TI a t -> tstep I a q t = (a', q', t', Some o) ->
+  forall e0, In e0 (handles_in o) -> fst e0 < max_id a /\ (1 <= snd e0)%Z.
+Proof.
+  intros [Ha Hst] Ht H e0 He. tstep_cases H; cbn [handles_in In] in He; try contradiction;
+    destruct He as [<-|[]].
+  - destruct (resolve_good _ _ _ _ Ha Ht Eres) as [G1 [G2 _]]. auto.
+  - destruct (resolve_good _ _ _ _ Ha Ht Eres) as [G1 [G2 _]]. auto.
+  - destruct (ti_k _ _ Ht _ _ Epc) as [_ [[G1 [G2 _]] _]]. auto.
+Qed.
+
+Definition WI (c : config) : Prop := awf_run a0 (lin_ops c) = true.
+
+Lemma WI_step c n : GI c -> LI c -> WI c -> WI (step_thread c n).
+Proof.
+  intros [Hg Ht Hi] HL HW.
+  destruct (step_thread_cases c n) as [[-> _]|[l1 [t [l2 [a' [q' [t' [ev [Hl [Hn [Hs ->]]]]]]]]]]]; [assumption|].
+  unfold WI, lin_ops in *. norm. destruct ev as [o|]; [|assumption].
+  rewrite map_app. cbn [map snd]. rewrite awf_run_snoc, HW. cbn [andb].
+  rewrite Hl in Ht. rewrite Hi in Hs. clear Hi.
+  apply Forall_app in Ht. destruct Ht as [F1 F2]. inversion F2 as [|? ? Tt F3]; subst.
+  unfold aop_wfb. apply forallb_forall. intros e He.
+  destruct (tstep_wf _ _ _ _ _ _ _ Hg Tt Hs e He) as [W1 W2].
+  unfold LI, replay, lin_ops in HL. rewrite (li_max _ _ _ HL).
+  apply andb_true_iff. split; [apply N.ltb_lt | apply Z.leb_le]; assumption.
+Qed.
+
+Lemma WI_run s : forall c, GI c -> LI c -> WI c -> WI (run c s).
+Proof.
+  induction s as [|n s IH]; intros c Hc HL HW; cbn [run]; [assumption|].
+  apply IH; [apply GI_step | apply LI_step | apply WI_step]; assumption.
+Qed.
+
+Theorem lin_well_formed progs s : awf_run a0 (lin_ops (run (c_new a0 I progs) s)) = true.
+Proof. apply WI_run; [apply GI_new | apply LI_new | reflexivity]. Qed.
+
 End Phase.
 
 (* ------------------------------------------------------------------ *)
@@ -913,3 +959,115 @@ Proof.
     destruct (finished_prog t (Hfin t Ht)) as [-> _]. rewrite app_nil_r. reflexivity. }
   unfold QI in Hq. rewrite E in Hq. split; [assumption | apply interleaving_perm; assumption].
 Qed.
+
+(* ------------------------------------------------------------------ *)
+(* from the refinement relation R of AllocRefine.v *)
+
+Lemma stack_get L : forall c n, stack_is c n L -> forall x, 0 < x <= n ->
+  exists id, pv_get c (x - 1) = Some id /\ nth_error L (N.to_nat (n - x)) = Some id.
+Proof.
+  induction L as [|y L IH]; intros c n Hs x Hx; cbn [stack_is] in Hs; [lia|].
+  destruct Hs as [Hn [Hg Hs]]. destruct (N.eq_dec x n) as [->|Hne].
+  - exists y. replace (n - n) with 0 by lia. auto.
+  - destruct (IH c (n - 1) Hs x) as [id [G1 G2]]; [lia|]. exists id. split; [assumption|].
+    replace (N.to_nat (n - x)) with (S (N.to_nat (n - 1 - x))) by lia. assumption.
+Qed.
+
+Lemma R_Init0 a0 s0 : R a0 s0 -> LInv s0 -> Init0 a0.
+Proof.
+  intros [Hst Hu Hcl Hcell [L [Hs [Hnd HL]]]] HI. rewrite app_nil_r in *. split; [assumption| |].
+  - intros x Hx. destruct (stack_get L _ _ Hs x Hx) as [id [G1 G2]]. exists id. split; [assumption|].
+    rewrite <- Hu. apply free_below_used; [assumption|]. apply HL. apply (nth_error_In _ _ G2).
+  - intros x y id Hx Hy Gx Gy.
+    destruct (stack_get L _ _ Hs x Hx) as [idx [G1 G2]]. destruct (stack_get L _ _ Hs y Hy) as [idy [G3 G4]].
+    assert (idx = id) by congruence. assert (idy = id) by congruence. subst idx idy.
+    assert (N.to_nat (clen a0 - x) = N.to_nat (clen a0 - y)) as E.
+    { apply (proj1 (NoDup_nth_error L) Hnd); [|congruence]. apply nth_error_Some. congruence. }
+    lia.
+Qed.
+
+(* a handle the lifecycle specification has issued is a legitimate initial handle *)
+Lemma issued_hinit_ok a0 s0 e : R a0 s0 -> LInv s0 ->
+  fst e < used s0 -> (1 <= snd e <= top (cell s0 (fst e)))%Z -> hinit_ok a0 e.
+Proof.
+  intros HR HI Hu Hg. split; [rewrite <- (R_used _ _ _ HR); assumption|]. split; [lia|].
+  destruct (R_cell _ _ _ HR (fst e)) as [Hgen [_ [Hr _]]]. unfold h_stable. rewrite Hgen, Hr.
+  pose proof (J_pos _ HI (fst e)) as Hp.
+  destruct (cell s0 (fst e)) as [|g|g kp|g kp]; cbn [exp_gen exp_raised top negb andb] in *;
+    rewrite ?andb_false_r; try reflexivity.
+  - assert (1 <= g)%Z by (apply Hp; discriminate).
+    destruct (Z.eqb_spec (snd e) (1 - - g)); [lia|]. rewrite andb_false_r. reflexivity.
+  - assert (1 <= g)%Z by (apply Hp; discriminate). destruct (Z.ltb_spec g 0); [lia|]. reflexivity.
+Qed.
+
+(* a handle alive in the specification is alive in the model *)
+Lemma l_alive_a_alive a0 s0 e : R a0 s0 -> LInv s0 -> l_is_alive s0 e = true ->
+  a_is_alive a0 e = true /\ (1 <= snd e)%Z.
+Proof.
+  intros HR HI Hal. destruct (alive_top _ _ Hal) as [Ht Ho].
+  assert (cell s0 (fst e) <> Never) as Hn by (intros E; rewrite E in Ho; discriminate).
+  assert (1 <= snd e)%Z as Hp by (rewrite Ht; apply (J_pos _ HI); assumption).
+  split; [|assumption]. rewrite (is_alive_ref a0 s0 [] HR HI e Hn Hp). assumption.
+Qed.
+
+(* R does not depend on the representation of the sets *)
+Lemma R_aeq a b s : R b s -> aeq a b -> R a s.
+Proof.
+  intros [Hst Hu Hcl Hcell HL] [E1 E2 E3 E4 E5 E6 E7 E8]. split.
+  - congruence.
+  - congruence.
+  - rewrite E5, E6. assumption.
+  - intros i. destruct (Hcell i) as [C1 [C2 [C3 C4]]]. unfold cell_rel, gen_at. rewrite E1, E2, E3, E4. auto.
+  - rewrite E5, E6. assumption.
+Qed.
+
+Section Refine.
+Variables (a0 : astate) (s0 : lstate) (I : list entity).
+Hypothesis HR : R a0 s0.
+Hypothesis HL : LInv s0.
+Hypothesis HI : Forall (hinit_ok a0) I.
+
+Let H0 : Init0 a0 := R_Init0 a0 s0 HR HL.
+
+Lemma claimed_not_occupied a id : claimed a0 a id -> occupied (cell s0 id) = false.
+Proof.
+  intros [[x [Hx Hg]]|Hf].
+  - destruct (R_stack _ _ _ HR) as [L [Hs [Hnd HLL]]]. rewrite app_nil_r in HLL.
+    destruct (stack_get L _ _ Hs x) as [id' [G1 G2]]; [lia|].
+    assert (id' = id) by congruence. subst id'.
+    assert (is_free (cell s0 id) = true) as Hfree by (apply HLL; apply (nth_error_In _ _ G2)).
+    destruct (cell s0 id); try discriminate. reflexivity.
+  - rewrite (J_beyond _ HL); [reflexivity|]. rewrite (R_used _ _ _ HR). lia.
+Qed.
+
+(* (a) with respect to the handles alive at the start *)
+Theorem returned_fresh progs s e e0 :
+  In e (all_mine (run (c_new a0 I progs) s)) -> l_is_alive s0 e0 = true -> fst e <> fst e0.
+Proof.
+  intros He Hal Heq.
+  destruct (returned_distinct a0 I H0 HI progs s) as [_ [_ Hc]]. destruct (Hc e He) as [Hcl _].
+  apply claimed_not_occupied in Hcl. destruct (alive_top _ _ Hal) as [_ Ho]. congruence.
+Qed.
+
+(* (d), refinement form: the final shared state is R-related to the
+   lifecycle state reached by the same creations (with the indices chosen)
+   and deferred deletions, in linearisation order; every choice was valid *)
+Theorem final_state_refines progs s :
+  let c := run (c_new a0 I progs) s in
+  all_finished c = true ->
+  let ops := lin_ops c in
+  let outs := snd (arun true a0 ops) in
+  lvalid s0 (with_choices ops outs) = true /\
+  snd (lrun s0 (with_choices ops outs)) = outs /\
+  R (sh c) (fst (lrun s0 (with_choices ops outs))) /\
+  LInv (fst (lrun s0 (with_choices ops outs))).
+Proof.
+  intros c Hfin ops outs.
+  pose proof (lin_well_formed a0 I H0 HI progs s) as Hwf. fold c in Hwf. fold ops in Hwf.
+  destruct (arun_refines ops a0 s0 HR HL Hwf) as [R1 [R2 [R3 R4]]].
+  split; [assumption|]. split; [assumption|]. split; [|assumption].
+  apply (R_aeq _ (fst (arun true a0 ops))); [assumption|].
+  apply (final_state_sequential a0 I H0 HI progs s Hfin).
+Qed.
+
+End Refine.
